@@ -257,12 +257,23 @@ fn jvalue(depth: u32, size: u32, width: usize, maxstr: usize, rep_max: u16) -> B
 		10 => text(maxstr).prop_map(J::Str),
 		1 => (vec(chr(), 1..=3).prop_map(|v| v.into_iter().collect::<String>()), 0..=rep_max).prop_map(|(u, n)| J::Rep(u, n)),
 	];
-	leaf
-		.prop_recursive(depth, size, width as u32, move |inner| {
-			prop_oneof![
-				vec(inner.clone(), 0..=width).prop_map(J::Arr),
-				vec((key(), inner), 0..=width).prop_map(J::Obj),
-			]
+	let tree = leaf.prop_recursive(depth, size, width as u32, move |inner| {
+		prop_oneof![
+			vec(inner.clone(), 0..=width).prop_map(J::Arr),
+			vec((key(), inner), 0..=width).prop_map(J::Obj),
+		]
+	});
+	// prop_recursive rarely gets deep: wrap some trees into a chain of single-element containers
+	let wraps = prop_oneof![3 => Just(vec![]), 1 => vec(proptest::option::of(key()), 0..=depth as usize)];
+	(tree, wraps)
+		.prop_map(|(mut v, wraps)| {
+			for w in wraps {
+				v = match w {
+					None => J::Arr(vec![v]),
+					Some(k) => J::Obj(vec![(k, v)]),
+				};
+			}
+			v
 		})
 		.boxed()
 }
@@ -481,7 +492,7 @@ fn coord(lo: f64, hi: f64) -> BoxedStrategy<f64> {
 		2 => (lo as i32..=hi as i32).prop_map(|i| i as f64),
 		1 => Just(lo),
 		1 => Just(hi),
-		3 => (lo..=hi),
+		3 => lo..=hi,
 		2 => ((lo * 1e7) as i64..=(hi * 1e7) as i64).prop_map(|i| i as f64 / 1e7),
 		1 => select(vec![0.0f64, -0.0, 1e-9, -1e-9, 85.0511287798066, -85.0511287798066, 85.05112877980659, 13.404954, 52.520008]).prop_map(move |x| x.clamp(lo, hi)),
 	]
@@ -924,7 +935,7 @@ struct CCase {
 }
 
 fn ccase(max_entries: usize) -> BoxedStrategy<CCase> {
-	let lvl = (prop_oneof![5 => 0u8..=4, 2 => 5u8..=10], any::<u32>(), any::<u32>(), 1u8..=3, 1u8..=3).prop_map(|(z, x, y, w, h)| {
+	let lvl = (prop_oneof![3 => 0u8..=4, 3 => 5u8..=10], any::<u32>(), any::<u32>(), 1u8..=3, 1u8..=3).prop_map(|(z, x, y, w, h)| {
 		let n = 1u64 << z;
 		Lvl { z, x: (x as u64 % n) as u32, y: (y as u64 % n) as u32, w, h }
 	});
@@ -935,8 +946,20 @@ fn ccase(max_entries: usize) -> BoxedStrategy<CCase> {
 		any::<bool>(),
 		vec(lvl, 1..=3),
 		proptest::option::weighted(0.3, select(Target::ALL.to_vec())),
+		proptest::bool::weighted(0.4),
 	)
-		.prop_map(|(doc, target, comp, png, levels, chain)| CCase { doc, target, comp, png, levels, chain: chain.filter(|c| *c != target) })
+		.prop_map(|(doc, target, comp, png, mut levels, chain, align)| {
+			// independent boxes rarely overlap: now and then put the tiles onto the north-west
+			// corner of the document's bounds, so that the coverage cuts the bounds
+			if let (true, Some(b)) = (align, doc.bounds) {
+				for l in levels.iter_mut() {
+					let max = ((1u64 << l.z) - 1) as f64;
+					l.x = georef::tx(b[0], l.z).floor().clamp(0.0, max) as u32;
+					l.y = georef::ty(b[3].clamp(-85.0, 85.0), l.z).floor().clamp(0.0, max) as u32;
+				}
+			}
+			CCase { doc, target, comp, png, levels, chain: chain.filter(|c| *c != target) }
+		})
 		.boxed()
 }
 
@@ -1050,6 +1073,11 @@ fn fixed_containers() -> Vec<CCase> {
 				v.push(CCase { doc: rich.clone(), target: t, comp: Comp::Gzip, png: true, levels: vec![Lvl { z: 2, x: 1, y: 1, w: 2, h: 1 }], chain: Some(t2) });
 			}
 		}
+		// a document whose bounds and zoom range are smaller than / cut by / disjoint from the coverage
+		for (bounds, minzoom, maxzoom) in [([1.0, 1.0, 10.0, 10.0], 2, 2), ([-20.0, -20.0, 20.0, 20.0], 0, 9), ([-170.0, -80.0, -160.0, -70.0], 5, 1)] {
+			let doc = Doc { bounds: Some(bounds), minzoom: Some(minzoom), maxzoom: Some(maxzoom), ..rich.clone() };
+			v.push(CCase { doc, target: t, comp: Comp::None, png: false, levels: vec![Lvl { z: 1, x: 1, y: 0, w: 1, h: 2 }, Lvl { z: 3, x: 4, y: 3, w: 2, h: 2 }], chain: None });
+		}
 	}
 	v
 }
@@ -1084,20 +1112,20 @@ fn main() {
 	let reg: Vec<J> = check.regression_cases("json-values");
 	check.enumerate("json-values-regressions", reg, false, oracle_value);
 	check.enumerate("json-values-fixed", fixed_values(), false, oracle_value);
-	check.phase("json-values", check.cases(20_000, 1_000_000), || jvalue(depth, size, width, maxstr, rep), oracle_value);
+	check.phase("json-values", check.cases(20_000, 3_000_000), || jvalue(depth, size, width, maxstr, rep), oracle_value);
 
 	// (b)
 	let max_entries = if thorough { 16 } else { 8 };
 	let reg: Vec<Doc> = check.regression_cases("tilejson-docs");
 	check.enumerate("tilejson-docs-regressions", reg, false, oracle_doc);
 	check.enumerate("tilejson-docs-fixed", fixed_docs(), false, oracle_doc);
-	check.phase("tilejson-docs", check.cases(2_000, 100_000), || doc(max_entries), oracle_doc);
+	check.phase("tilejson-docs", check.cases(2_000, 400_000), || doc(max_entries), oracle_doc);
 
 	// (c)
 	let reg: Vec<CCase> = check.regression_cases("containers");
 	check.enumerate("containers-regressions", reg, false, oracle_container);
 	check.enumerate("containers-fixed", fixed_containers(), false, oracle_container);
-	check.phase("containers", check.cases(320, 16_000), || ccase(max_entries), oracle_container);
+	check.phase("containers", check.cases(320, 60_000), || ccase(max_entries), oracle_container);
 
 	server_phase(&mut check);
 	check.finish();
